@@ -1531,27 +1531,20 @@ func (vr *varResolver) resolve(token Token) ([]Token, bool) {
 
 	fn := token.(pa.FunctionBlock)
 	if utils.AsciiLower(fn.Name) != "var" {
+		// substitute in every argument, at any depth (resolve returns nil when the argument holds no var())
 		arguments := []Token{}
 		for _, argument := range fn.Arguments {
-			if fna, isFunction := argument.(pa.FunctionBlock); isFunction && utils.AsciiLower(fna.Name) == "var" {
-				resolved, valid := vr.resolve(argument)
-				if !valid {
-					return nil, false
-				}
+			resolved, valid := vr.resolve(argument)
+			if !valid {
+				return nil, false
+			}
+			if resolved != nil {
 				arguments = append(arguments, resolved...)
 			} else {
 				arguments = append(arguments, argument)
 			}
 		}
-		token = pa.NewFunctionBlock(token.Pos(), fn.Name, arguments)
-		resolved, valid := vr.resolve(token)
-		if !valid {
-			return nil, false
-		}
-		if len(resolved) != 0 {
-			return resolved, true
-		}
-		return []Token{token}, true
+		return []Token{pa.NewFunctionBlock(token.Pos(), fn.Name, arguments)}, true
 	}
 
 	_, args := pa.ParseFunction(token)
